@@ -1752,3 +1752,48 @@ def spec_react_index(fns, consts):
 
 
 SPECS["C02"].append(spec_react_index)
+
+
+# ------------------------------------------------------------------ C06: env and defaults only fill in what the command line left absent
+
+def spec_source_precedence(fns, consts):
+    """Parser::add_env (one pass of its loop) and Parser::add_default_value (every path): a value from
+    the environment or from a (conditional) default is handed to react ONLY on paths where
+    `matcher.contains(<this argument's id>)` was consulted and is false - whatever is already matched
+    (command line before env, env before defaults) is never overridden or appended to; at most one
+    default is applied per argument (the first conditional default whose condition holds wins, the
+    plain default is used only when none did)."""
+    con = contracts.Contracts(fns, default_pure=True)
+    ctx = symex.Ctx(consts, con)
+    obs, enc = [], []
+    for fname in ("add_env", "add_default_value"):
+        fn = _find(fns, "parser/parser.rs", fname)
+        args = [("opq", "self"), ("opq", "arg"), ("opq", "matcher")] if fname == "add_default_value" else [("opq", "self"), ("opq", "matcher")]
+        ex = symex.Exec(ctx, fn, args)
+        ex.run(havoc_unassigned=True, cut_loops=True)
+        paths = [(pc, ca) for (pc, _), ca in zip(ex.returns, ex.return_callargs)] + [(pc, env.get("#callargs", ())) for pc, env in ex.cuts]
+        n_react = 0
+        for pc, ca in paths:
+            cn = [c[0] for c in ca]
+            reacts = [i for i, n in enumerate(cn) if n.endswith("::react")]
+            if not reacts:
+                continue
+            n_react += 1
+            cont = [i for i, n in enumerate(cn) if n == "ArgMatcher::contains" and i < reacts[0]]
+            if fname == "add_env":
+                item = [c for c in ca if re.search(r"Iter<'_, Arg> as Iterator>::next$", c[0])]
+                own = bool(cont) and bool(item) and ca[cont[-1]][1][0] == "matcher" and ca[cont[-1]][1][1].startswith(item[-1][2] + "@Some.0") and ca[reacts[0]][1][3] == item[-1][2] + "@Some.0"
+            else:
+                own = bool(cont) and ca[cont[-1]][1] == ("matcher", "Arg::get_id(arg)") and ca[reacts[0]][1][3] == "arg"
+            sym = ctx.keys.get(ca[cont[-1]][2]) if cont else None
+            obs.append({"fn": fn.name, "block": "call", "kind": "spec", "target": "source_precedence",
+                        "msg": f"{fname}: a value is supplied only for an argument the matcher does not contain yet", "pc": list(pc), "neg": sym if (own and sym) else "true"})
+            obs.append({"fn": fn.name, "block": "call", "kind": "spec", "target": "source_precedence",
+                        "msg": f"{fname}: at most one value set is supplied per argument on a path", "pc": list(pc), "neg": "false" if len(reacts) == 1 else "true"})
+        if n_react == 0:
+            obs.append({"fn": fn.name, "block": "shape", "kind": "spec", "target": "source_precedence", "msg": f"{fname}: no path supplies a value", "pc": [], "neg": "true"})
+        enc.append(_enc(fn, ex, len(paths)))
+    return ctx, obs, enc, con
+
+
+SPECS["C06"].append(spec_source_precedence)
